@@ -1,4 +1,5 @@
 import MirVerif.Lemmas.AbiX64
+import MirVerif.Lemmas.AbiX64Spec
 /-!
 # Property C05 — calls from MIR code to native functions follow the x86-64 System V ABI
 
@@ -180,6 +181,19 @@ theorem ff_eq_gen_partial (args : List ArgTy) (hws : WellSizedArgs args) (hnb : 
 
 theorem ff_eq_gen_false :
     ffPlace Cfg.current [.blk .b1 8, .d] ≠ genPlace Cfg.current [.blk .b1 8, .d] := by decide
+
+/-! ## the specification is well formed -/
+
+/-- every location the psABI specification hands out is one of rdi,rsi,rdx,rcx,r8,r9 / xmm0-7, or an
+8-aligned slot that lies inside the outgoing argument area (so the equalities above also bound what
+the code models may touch) -/
+theorem sysv_wellformed (args : List ArgTy) :
+    ∀ ls ∈ (sysvPlace args).locs, ∀ l ∈ ls, l.Valid (sysvPlace args).stackBytes := by
+  obtain ⟨_, _, h3⟩ := sysv_run_valid args St.init ⟨by decide, by decide, by decide⟩
+  intro ls hls l hl
+  have := h3 ls hls l hl
+  refine this.mono ?_
+  simp only [sysvPlace, finish, St.norm, roundUp]; omega
 
 /-! ## stack size and alignment at the call -/
 
